@@ -212,6 +212,28 @@ def _argv_value(argv, opt):
     return argv[argv.index(opt) + 1] if opt in argv and argv.index(opt) + 1 < len(argv) else None
 
 
+_TAKES = ("--privkey-pem", "--pubkey-cert-pem", "--pubkey-cert-der", "--node-id", "--output", "--enabled-reference-uris",
+          "--session-key", "--xml-data", "--node-xpath", "--pubkey-pem", "--node-name", "--trusted-pem")
+
+
+def _options(argv):
+    """the argv read the way the tool reads it (an option that takes a value consumes the NEXT element whatever it
+    looks like): ([values of --node-id], [(id attribute, node name)])"""
+    nids, idattrs = [], []
+    i = 1
+    while i < len(argv):
+        x = argv[i]
+        if isinstance(x, str) and x.startswith("--id-attr:") and i + 1 < len(argv):
+            idattrs.append((x[len("--id-attr:"):], argv[i + 1]))
+            i += 1
+        elif x in _TAKES and i + 1 < len(argv):
+            if x == "--node-id":
+                nids.append(argv[i + 1])
+            i += 1
+        i += 1
+    return nids, idattrs
+
+
 def _octets(x):
     return x if isinstance(x, bytes) or x is None else x.encode("utf-8")
 
@@ -222,10 +244,12 @@ def audit(rec, item_id=None, node_name=None, text=None, know_item=False):
     Always: every `--verify` run with a --node-id was preceded by a pre-check call that was given the SAME id string,
     the same node name, the same id attribute name and the same document octets, and answered True."""
     out = []
+    if know_item and node_name is not None and rec.tool and not any(n == node_name for t in rec.tool for _, n in _options(t["argv"])[1]):
+        out.append(("id-attr-name-not-item-name", "no tool run of this check registers the IDs of %s elements" % node_name))
     for i, t in enumerate(rec.tool):
         argv = t["argv"]
-        nid = _argv_value(argv, "--node-id")
-        idattrs = [(a[len("--id-attr:"):], argv[j + 1]) for j, a in enumerate(argv[:-1]) if a.startswith("--id-attr:")]
+        nids, idattrs = _options(argv)
+        nid = nids[-1] if nids else None
         if know_item and (node_name is None or any(n == node_name for _, n in idattrs)):
             if nid != item_id or not isinstance(nid, str):
                 out.append(("node-id-not-item-id", "the tool was started with --node-id %r, the object's id is %r" % (nid, item_id)))
@@ -233,6 +257,16 @@ def audit(rec, item_id=None, node_name=None, text=None, know_item=False):
                 out.append(("tool-text-not-item-text", "the document handed to the tool is not the text the object was parsed from"))
         if [a for a, _ in idattrs] != ["ID"]:
             out.append(("id-attr-not-ID", "the tool was told --id-attr %r" % (idattrs,)))
+        # every verification names its start node: --node-id once, followed by ONE argv element that is the literal ID
+        # of an element (of the registered name) of the very document handed over - whatever that ID looks like
+        if len(nids) != 1:
+            out.append(("tool-run-without-node-id", "the tool was started for a verification with %d --node-id options (argv %r)"
+                        % (len(nids), argv[1:-1])))
+        elif t["octets"] is not None and len(idattrs) == 1:
+            lits = literal_ids(t["octets"], idattrs[0][0], idattrs[0][1])
+            if lits is not None and nid not in lits:
+                out.append(("node-id-names-no-element", "the tool was started with --node-id %r; the %s elements of the document carry %r"
+                            % (nid, idattrs[0][1].rpartition(":")[2], sorted(lits))))
         if rec.helper is None or nid is None:
             continue
         before = [p for p in rec.pre if p["at"] <= i]
@@ -251,6 +285,16 @@ def audit(rec, item_id=None, node_name=None, text=None, know_item=False):
         if t["octets"] is not None and p.get("decoded_xml") is not None and _octets(p["decoded_xml"]) != t["octets"]:
             out.append(("precheck-text-not-tool-text", "the pre-check and the tool were given different documents"))
     return out
+
+
+def literal_ids(octets, id_attr, node_name):
+    """the literal id_attr values of the elements called node_name ('namespace:tag') in the document, None if unparsable"""
+    try:
+        root = ET.fromstring(octets)
+    except ET.ParseError:
+        return None
+    ns, _, tag = node_name.rpartition(":")
+    return set(e.get(id_attr) for e in root.iter("{%s}%s" % (ns, tag)) if e.get(id_attr) is not None)
 
 
 def element_at(root, path):
